@@ -1,7 +1,7 @@
 """C05: seeded generator of multi-frame sequences for the compositor (plans for the Lean reference encoder,
 grammar in lean/JxlModel/Driver/Enc.lean), the input line of the Lean driver `c05`, and parsers of keyframe dumps.
 Builds on planlib (plan serialisation)."""
-from planlib import blend_str, chan_str, plan_line, parse_enc_output
+from planlib import blend_str, chan_str, plan_line, parse_enc_output, patches_str
 BLEND_NAMES = ["replace", "add", "blend", "muladd", "mul"]
 
 
@@ -276,7 +276,10 @@ def comp_line(img, frames, decoded):
               f.get("w", 0), f.get("h", 0), blend_str(f.get("blend", {}))]
         ecb = f.get("ecblend", [{}] * nec)
         s += [blend_str(ecb[i]) for i in range(nec)]
-        s += [f.get("dur", 0), int(f.get("is_last", True)), f.get("save_ref", 0), int(f.get("sbct", False)), len(ch)]
+        s += [f.get("dur", 0), int(f.get("is_last", True)), f.get("save_ref", 0), int(f.get("sbct", False))]
+        if f.get("patches"):
+            s += [patches_str(f["patches"])]
+        s += [len(ch)]
         for (cw, chh, data) in ch:
             s.append(chan_str(cw, chh, data))
     return " ".join(map(str, s))
